@@ -150,6 +150,8 @@ package parser
 
 //@ func parser.function1Arg
 //@   tags C02 C04 C08 C09
+//@   at new:unexpectedTokenError#* assert[C02 C08] arity.sep: p.curr.Type != const("lexer.CloseParenToken") && p.curr.Type != const("lexer.CommaToken")
+//@   at new:InvalidFunctionCallError#* assert[C02 C08] arity.only: p.curr.Type == const("lexer.CloseParenToken") || p.curr.Type == const("lexer.CommaToken")
 //@   assigns p.curr, p.next, p.lex, fam:G_pos, fam:G_toks
 //@   requires pi: p.curr.Type == tokT(ppos) && p.next.Type == tokT(ppos + 1) && tokOK(p.curr.Type, p.curr.Value) && tokOK(p.next.Type, p.next.Value) && 0 <= p.lex.position && p.lex.position <= len(p.lex.expression)
 //@   ensures pi: result1 == nil ==> p.curr.Type == tokT(ppos) && p.next.Type == tokT(ppos + 1) && tokOK(p.curr.Type, p.curr.Value) && tokOK(p.next.Type, p.next.Value) && 0 <= p.lex.position && p.lex.position <= len(p.lex.expression)
@@ -158,6 +160,8 @@ package parser
 
 //@ func parser.function1To2Arg
 //@   tags C02 C04 C08 C09
+//@   at new:unexpectedTokenError#* assert[C02 C08] arity.sep: p.curr.Type != const("lexer.CloseParenToken") && p.curr.Type != const("lexer.CommaToken")
+//@   at new:InvalidFunctionCallError#* assert[C02 C08] arity.only: p.curr.Type == const("lexer.CloseParenToken") || p.curr.Type == const("lexer.CommaToken")
 //@   assigns p.curr, p.next, p.lex, fam:G_pos, fam:G_toks
 //@   requires pi: p.curr.Type == tokT(ppos) && p.next.Type == tokT(ppos + 1) && tokOK(p.curr.Type, p.curr.Value) && tokOK(p.next.Type, p.next.Value) && 0 <= p.lex.position && p.lex.position <= len(p.lex.expression)
 //@   ensures pi: result2 == nil ==> p.curr.Type == tokT(ppos) && p.next.Type == tokT(ppos + 1) && tokOK(p.curr.Type, p.curr.Value) && tokOK(p.next.Type, p.next.Value) && 0 <= p.lex.position && p.lex.position <= len(p.lex.expression)
@@ -167,6 +171,8 @@ package parser
 
 //@ func parser.function2Arg
 //@   tags C02 C04 C08 C09
+//@   at new:unexpectedTokenError#* assert[C02 C08] arity.sep: p.curr.Type != const("lexer.CloseParenToken") && p.curr.Type != const("lexer.CommaToken")
+//@   at new:InvalidFunctionCallError#* assert[C02 C08] arity.only: p.curr.Type == const("lexer.CloseParenToken") || p.curr.Type == const("lexer.CommaToken")
 //@   assigns p.curr, p.next, p.lex, fam:G_pos, fam:G_toks
 //@   requires pi: p.curr.Type == tokT(ppos) && p.next.Type == tokT(ppos + 1) && tokOK(p.curr.Type, p.curr.Value) && tokOK(p.next.Type, p.next.Value) && 0 <= p.lex.position && p.lex.position <= len(p.lex.expression)
 //@   ensures pi: result2 == nil ==> p.curr.Type == tokT(ppos) && p.next.Type == tokT(ppos + 1) && tokOK(p.curr.Type, p.curr.Value) && tokOK(p.next.Type, p.next.Value) && 0 <= p.lex.position && p.lex.position <= len(p.lex.expression)
@@ -176,6 +182,8 @@ package parser
 
 //@ func parser.function2ExpArg
 //@   tags C02 C04 C08 C09
+//@   at new:unexpectedTokenError#* assert[C02 C08] arity.sep: p.curr.Type != const("lexer.CloseParenToken") && p.curr.Type != const("lexer.CommaToken")
+//@   at new:InvalidFunctionCallError#* assert[C02 C08] arity.only: p.curr.Type == const("lexer.CloseParenToken") || p.curr.Type == const("lexer.CommaToken")
 //@   assigns p.curr, p.next, p.lex, fam:G_pos, fam:G_toks
 //@   requires pi: p.curr.Type == tokT(ppos) && p.next.Type == tokT(ppos + 1) && tokOK(p.curr.Type, p.curr.Value) && tokOK(p.next.Type, p.next.Value) && 0 <= p.lex.position && p.lex.position <= len(p.lex.expression)
 //@   ensures pi: result2 == nil ==> p.curr.Type == tokT(ppos) && p.next.Type == tokT(ppos + 1) && tokOK(p.curr.Type, p.curr.Value) && tokOK(p.next.Type, p.next.Value) && 0 <= p.lex.position && p.lex.position <= len(p.lex.expression)
@@ -185,6 +193,8 @@ package parser
 
 //@ func parser.function2MapArg
 //@   tags C02 C04 C08 C09
+//@   at new:unexpectedTokenError#* assert[C02 C08] arity.sep: p.curr.Type != const("lexer.CloseParenToken") && p.curr.Type != const("lexer.CommaToken")
+//@   at new:InvalidFunctionCallError#* assert[C02 C08] arity.only: p.curr.Type == const("lexer.CloseParenToken") || p.curr.Type == const("lexer.CommaToken")
 //@   assigns p.curr, p.next, p.lex, fam:G_pos, fam:G_toks
 //@   requires pi: p.curr.Type == tokT(ppos) && p.next.Type == tokT(ppos + 1) && tokOK(p.curr.Type, p.curr.Value) && tokOK(p.next.Type, p.next.Value) && 0 <= p.lex.position && p.lex.position <= len(p.lex.expression)
 //@   ensures pi: result2 == nil ==> p.curr.Type == tokT(ppos) && p.next.Type == tokT(ppos + 1) && tokOK(p.curr.Type, p.curr.Value) && tokOK(p.next.Type, p.next.Value) && 0 <= p.lex.position && p.lex.position <= len(p.lex.expression)
@@ -194,6 +204,8 @@ package parser
 
 //@ func parser.function2To3Arg
 //@   tags C02 C04 C08 C09
+//@   at new:unexpectedTokenError#* assert[C02 C08] arity.sep: p.curr.Type != const("lexer.CloseParenToken") && p.curr.Type != const("lexer.CommaToken")
+//@   at new:InvalidFunctionCallError#* assert[C02 C08] arity.only: p.curr.Type == const("lexer.CloseParenToken") || p.curr.Type == const("lexer.CommaToken")
 //@   assigns p.curr, p.next, p.lex, fam:G_pos, fam:G_toks
 //@   requires pi: p.curr.Type == tokT(ppos) && p.next.Type == tokT(ppos + 1) && tokOK(p.curr.Type, p.curr.Value) && tokOK(p.next.Type, p.next.Value) && 0 <= p.lex.position && p.lex.position <= len(p.lex.expression)
 //@   ensures pi: result3 == nil ==> p.curr.Type == tokT(ppos) && p.next.Type == tokT(ppos + 1) && tokOK(p.curr.Type, p.curr.Value) && tokOK(p.next.Type, p.next.Value) && 0 <= p.lex.position && p.lex.position <= len(p.lex.expression)
@@ -203,6 +215,8 @@ package parser
 
 //@ func parser.function2To4Arg
 //@   tags C02 C04 C08 C09
+//@   at new:unexpectedTokenError#* assert[C02 C08] arity.sep: p.curr.Type != const("lexer.CloseParenToken") && p.curr.Type != const("lexer.CommaToken")
+//@   at new:InvalidFunctionCallError#* assert[C02 C08] arity.only: p.curr.Type == const("lexer.CloseParenToken") || p.curr.Type == const("lexer.CommaToken")
 //@   assigns p.curr, p.next, p.lex, fam:G_pos, fam:G_toks
 //@   requires pi: p.curr.Type == tokT(ppos) && p.next.Type == tokT(ppos + 1) && tokOK(p.curr.Type, p.curr.Value) && tokOK(p.next.Type, p.next.Value) && 0 <= p.lex.position && p.lex.position <= len(p.lex.expression)
 //@   ensures pi: result4 == nil ==> p.curr.Type == tokT(ppos) && p.next.Type == tokT(ppos + 1) && tokOK(p.curr.Type, p.curr.Value) && tokOK(p.next.Type, p.next.Value) && 0 <= p.lex.position && p.lex.position <= len(p.lex.expression)
@@ -212,6 +226,8 @@ package parser
 
 //@ func parser.function3To4Arg
 //@   tags C02 C04 C08 C09
+//@   at new:unexpectedTokenError#* assert[C02 C08] arity.sep: p.curr.Type != const("lexer.CloseParenToken") && p.curr.Type != const("lexer.CommaToken")
+//@   at new:InvalidFunctionCallError#* assert[C02 C08] arity.only: p.curr.Type == const("lexer.CloseParenToken") || p.curr.Type == const("lexer.CommaToken")
 //@   assigns p.curr, p.next, p.lex, fam:G_pos, fam:G_toks
 //@   requires pi: p.curr.Type == tokT(ppos) && p.next.Type == tokT(ppos + 1) && tokOK(p.curr.Type, p.curr.Value) && tokOK(p.next.Type, p.next.Value) && 0 <= p.lex.position && p.lex.position <= len(p.lex.expression)
 //@   ensures pi: result4 == nil ==> p.curr.Type == tokT(ppos) && p.next.Type == tokT(ppos + 1) && tokOK(p.curr.Type, p.curr.Value) && tokOK(p.next.Type, p.next.Value) && 0 <= p.lex.position && p.lex.position <= len(p.lex.expression)
@@ -221,6 +237,8 @@ package parser
 
 //@ func parser.functionVarArg
 //@   tags C02 C04 C08 C09
+//@   at new:unexpectedTokenError#* assert[C02 C08] arity.sep: p.curr.Type != const("lexer.CloseParenToken") && p.curr.Type != const("lexer.CommaToken")
+//@   at new:InvalidFunctionCallError#* assert[C02 C08] arity.only: p.curr.Type == const("lexer.CloseParenToken") || p.curr.Type == const("lexer.CommaToken")
 //@   assigns p.curr, p.next, p.lex, fam:G_pos, fam:G_toks
 //@   requires pi: p.curr.Type == tokT(ppos) && p.next.Type == tokT(ppos + 1) && tokOK(p.curr.Type, p.curr.Value) && tokOK(p.next.Type, p.next.Value) && 0 <= p.lex.position && p.lex.position <= len(p.lex.expression)
 //@   ensures pi: result1 == nil ==> p.curr.Type == tokT(ppos) && p.next.Type == tokT(ppos + 1) && tokOK(p.curr.Type, p.curr.Value) && tokOK(p.next.Type, p.next.Value) && 0 <= p.lex.position && p.lex.position <= len(p.lex.expression)
